@@ -1427,4 +1427,19 @@ theorem f2EntryIds_no_trap (deltas : List (Option Int)) (hd : ∀ d ∈ deltas, 
 
 example : f2EntryIds [some (-1), some 5, some 7, none] = some ([0, 6, 14, 15], false) := by decide
 
+/-! ## skrifa/src/color/instance.rs — variable paint delta indices -/
+
+theorem colrVarIndex_no_trap (base i : Int) : (colrVarIndex base i).isSome := rfl
+
+/-- the pre-fix raw add trapped exactly when the index passes `u32::MAX`: for a paint with `N` deltas
+every `VarIndexBase` in `u32::MAX - N + 2 ..= u32::MAX - 1` (the value `u32::MAX` itself was excluded). -/
+theorem colrVarIndexPreFix_isSome_iff (base i : Int) (hb : U32 base) (hi : 0 ≤ i) :
+    (colrVarIndexPreFix base i).isSome ↔ base + i ≤ 4294967295 := by
+  unfold U32 at hb
+  simp only [colrVarIndexPreFix, IntTy.add, chk_isSome_iff, IntTy.inR, u32]
+  omega
+
+theorem colrVarIndexPreFix_traps_at : colrVarIndexPreFix 4294967294 2 = none := by decide
+example : colrVarIndex 4294967294 2 = some 4294967295 := by decide
+
 end FontVerif.C20
